@@ -487,7 +487,10 @@ def to_fpm_and_back(wavefunction, dx, efl, wavelength, fpm, fpm_dx, shift=(0, 0)
 
     field_after_fpm = field_at_fpm * fpm
 
-    field_at_next_pupil = unfocus_fixed_sampling(field_after_fpm, fpm_dx, efl, wavelength, dx, wavefunction.shape, shift=shift, method=method)  # NOQA
+    # the return leg must undo the same shift, measured in focal-plane samples; unfocus_fixed_sampling
+    # divides the shift it is given by its own output_dx (the pupil dx), so rescale it here
+    back_shift = (shift[0] * dx / fpm_dx, shift[1] * dx / fpm_dx)
+    field_at_next_pupil = unfocus_fixed_sampling(field_after_fpm, fpm_dx, efl, wavelength, dx, wavefunction.shape, shift=back_shift, method=method)  # NOQA
 
     if return_more:
         return field_at_next_pupil, field_at_fpm, field_after_fpm
